@@ -682,6 +682,9 @@ func c17Cases() []c17case {
 		mut  func(d gen.S)
 	}{
 		{"schemes-two", func(d gen.S) { d["schemes"] = gen.Arr("https", "http") }},
+		{"schemes-websocket", func(d gen.S) { d["schemes"] = gen.Arr("https", "wss") }},
+		{"schemes-all-four", func(d gen.S) { d["schemes"] = gen.Arr("http", "https", "ws", "wss") }},
+		{"schemes-websocket-only", func(d gen.S) { d["schemes"] = gen.Arr("ws") }},
 		{"no-basePath", func(d gen.S) { delete(d, "basePath") }},
 		{"no-host", func(d gen.S) { delete(d, "host"); delete(d, "schemes") }},
 		{"basic", func(d gen.S) {
